@@ -4,12 +4,20 @@ import itertools
 ROOTS = ['root', 'r', 'static.d']
 STORES = ['sess', 'sess2']
 WSGI_VARIANTS = ['std', 'std', 'std', 'noindex', 'rootmount', 'nested', 'slashdir', 'unnorm', 'match',
-                 'norootrel', 'script', 'dblslash', 'file', 'file-rel']
+                 'norootrel', 'script', 'dblslash', 'file', 'file-rel', 'debug', 'ctypes', 'regexsec', 'relroot',
+                 'rootdd', 'indexsub', 'indexdot', 'matchhead', 'file-norel', 'file-debug', 'file-dbg-missing',
+                 'file-dbg-dir', 'file-dbg-match', 'file-dbg-norel', 'file-dbg-relroot']
 MOUNT = {'std': '/static', 'noindex': '/static', 'rootmount': '', 'nested': '/s/t', 'slashdir': '/static',
          'unnorm': '/static', 'match': '/static', 'norootrel': '/static', 'script': '/static',
-         'dblslash': '/static', 'file': '/sf', 'file-rel': '/sf'}
-SPELLINGS = ['abs', 'abs', 'slash', 'unnorm', 'dotslash', 'rel+root', 'rel+root/', 'dblslash', 'rel-noroot']
-S_SPELLINGS = ['abs', 'abs', 'slash', 'unnorm', 'dotslash', 'dblslash']
+         'dblslash': '/static', 'file': '/sf', 'file-rel': '/sf', 'debug': '/static', 'ctypes': '/static',
+         'regexsec': '/st.t(c+', 'relroot': '/static', 'rootdd': '/static', 'indexsub': '/static',
+         'indexdot': '/static', 'matchhead': '/static', 'file-norel': '/sf', 'file-debug': '/sf',
+         'file-dbg-missing': '/sf', 'file-dbg-dir': '/sf', 'file-dbg-match': '/sf', 'file-dbg-norel': '/sf', 'file-dbg-relroot': '/sf'}
+SPELLINGS = ['abs', 'abs', 'slash', 'unnorm', 'dotslash', 'rel+root', 'rel+root/', 'dblslash', 'rel-noroot',
+             'dotdot', 'slashes', 'rel+relroot', 'rel+root-dd', 'relcwd']
+S_SPELLINGS = ['abs', 'abs', 'slash', 'unnorm', 'dotslash', 'dblslash', 'relcwd', 'dotdot', 'slashes']
+SECTIONS = ['/static', '/static', '/static', '/', 'global', '/static/', '/s/t', '', '/static\\', '/sta', '/static//',
+            'static', '/st.t(c+', '/[a-z]*', '/static\\/\\', '/stat?c', '/s|t', '/static/../static', '/%73tatic']
 
 UPS = ['..', '..', '..', '..', '%2e%2e', '%2E%2e', '.%2e', '%2e.', '%252e%252e', '...', '%c0%ae%c0%ae',
        '‥', '%e2%80%a5', '. .', '..;', '..%00', '.', '%2e']
@@ -49,8 +57,9 @@ def outside_targets(rn):
 
 def rel_path(rng, rn):
     """(url part below the mount point, template name)."""
-    t = rng.choices(['benign', 'sibling', 'absolute', 'prefixext', 'inner', 'special', 'soup', 'outback'],
-                    weights=[12, 30, 12, 14, 10, 10, 12, 5])[0]
+    t = rng.choices(['benign', 'sibling', 'absolute', 'prefixext', 'inner', 'special', 'soup', 'outback',
+                     'winpath', 'params', 'long', 'nul', 'order'],
+                    weights=[12, 30, 12, 14, 10, 10, 12, 5, 5, 4, 2, 4, 5])[0]
     if t == 'benign':
         p = rng.choice(INSIDE)
     elif t == 'sibling':
@@ -98,6 +107,41 @@ def rel_path(rng, rn):
         ups = '/'.join(['..'] * len(out.split('/')))
         back = rng.choice([rn + '/f.txt', rn + '/sub/g.txt', rn, rn + '/', rn + '-evil/secret.txt', 'canary.txt'])
         p = rng.choice(UPS[:5]) + '/' + out + '/' + ups + '/' + back
+    elif t == 'winpath':
+        # Windows separators / drive letters / UNC: on POSIX every one of them is an ordinary character
+        tgt = rng.choice(['canary.txt', rn + '-evil\\secret.txt', rn + '-evil/secret.txt', 'Windows\\win.ini', 'f.txt'])
+        p = rng.choice(['..\\..\\' + tgt, '..\\' + tgt, 'C:\\' + tgt, 'C:/' + tgt, 'c:' + tgt, 'C:..\\' + tgt,
+                        '\\\\host\\share\\' + tgt, '\\\\?\\C:\\' + tgt, '%5c..%5c..%5c' + tgt, '..%5c' + tgt,
+                        '..%255c' + tgt, 'sub\\..\\..\\' + tgt, 'sub\\g.txt', 'b\\c.txt', 'b%5cc.txt', 'b/c.txt',
+                        '..\\/' + tgt, '..\\/..\\/' + tgt, '\\../' + tgt, '/\\../..\\/../' + tgt, 'C:%5c..%2f..%2f' + tgt,
+                        '{TOP}\\canary.txt', 'C:{TOP}/canary.txt'])
+    elif t == 'params':
+        tgt = rng.choice(['canary.txt', rn + '-evil/secret.txt', 'f.txt'])
+        p = rng.choice(['..;/' + tgt, '..;/..;/' + tgt, '..;x=y/' + tgt, ';/../' + tgt, 'sub;v=1/../../' + tgt,
+                        'f.txt;v=1', 'f.txt;', ';f.txt', 'sub;/g.txt', 'sub/g.txt;type=a', '..%3b/' + tgt,
+                        ';..;/;..;/' + tgt, '.;/.;/' + tgt, '..;/..;/..;/' + tgt, 'sub/..;/..;/../' + tgt,
+                        ';/;/;', '..;..;/' + tgt, '../;/' + tgt, 'sub/;/../../../' + tgt])
+    elif t == 'long':
+        tgt = rng.choice(['canary.txt', rn + '-evil/secret.txt', rn + '/f.txt'])
+        p = rng.choice(['a/' * 2100 + '../' * 2100 + '../' + tgt, 'A' * 5000, '../' * 1500 + tgt,
+                        'sub/' + '../' * 3000 + tgt, './' * 3000 + 'f.txt', '/' * 5000 + 'f.txt',
+                        'sub/../' * 800 + 'f.txt', 'sub/deep/../../' * 700 + '../' + tgt, 'B' * 255 + '/../f.txt',
+                        'B' * 256 + '/../f.txt', '%2e%2e%2f' * 1400 + tgt, 'x' * 4090 + '/../../' + tgt,
+                        '..%2f' * 300 + '{TOP}/' + tgt])
+    elif t == 'nul':
+        tgt = rng.choice(['canary.txt', rn + '-evil/secret.txt', 'f.txt'])
+        p = rng.choice(['%00', 'f.txt%00', 'f.txt%00.html', '..%00/' + tgt, '%00/../' + tgt, 'f.txt%00/../../' + tgt,
+                        '..%2f%00', '../' + tgt + '%00', '../' + tgt + '%00.txt', '%00../' + tgt, '.%00./' + tgt,
+                        '..%00/..%00/' + tgt, 'sub/%00/../../../' + tgt, '%2500', '%c0%80', '../%c0%80/../' + tgt,
+                        '\x00', 'a\x00b', '..\x00/' + tgt, 'index.html%00', 'sub/%00', '%00%00%00'])
+    elif t == 'order':
+        # percent-decoding happens exactly once, before the test, and the tested string is the one used
+        tgt = rng.choice(['canary.txt', rn + '-evil/secret.txt', 'f.txt'])
+        up = rng.choice(['%252e%252e', '%25%32%65%25%32%65', '%%32%65%%32%65', '%2%65%2%65', '%u002e%u002e', '%c0%2e%c0%2e',
+                         '%e0%80%ae%e0%80%ae', '%252E%252E', '%25252e%25252e', '.%252e', '%2e%252e', '%2e%2e', '%2E%2e',
+                         '%2e%2E', '%2e.', '.%2E', '%f0%80%80%ae%f0%80%80%ae', '%2e%2e%', '%2e%2e%2', '%%2e%2e'])
+        sep = rng.choice(['/', '%2f', '%252f', '%25%32%66', '%2F', '/', '%5c', '%255c'])
+        p = sep.join([up] * rng.choice([1, 1, 2, 3]) + [tgt])
     elif t == 'special':
         p = rng.choice(['%00', 'f.txt%00', 'f.txt%00.html', '\x00', 'a\x00b', 'A' * 300, 'sub/' + 'B' * 260 + '/../../..',
                         '~', '~root', '~/x', ' ', '%20', '%0d%0a', 'f.txt/', 'f.txt/.', '.', './', '..', '../', '%2e',
@@ -134,8 +178,7 @@ def static_case(rng):
         if not path.startswith('/'):
             path = '/' + path
         return {'k': 'static', 'mode': 'wsgi', 'rn': rn, 'variant': v, 'method': method, 'path': path, 'tmpl': t}
-    section = rng.choice(['/static', '/static', '/static', '/', 'global', '/static/', '/s/t', '', '/static\\',
-                          '/sta', '/static//', 'static'])
+    section = rng.choice(SECTIONS)
     base = '/' if section == 'global' else section
     r = rng.random()
     if r < 0.7:
@@ -146,9 +189,16 @@ def static_case(rng):
         prefix = '/static/'
     else:
         prefix = rng.choice(['', '/', '/st', '/static/x/', '//static//'])
-    return {'k': 'static', 'mode': 'direct', 'rn': rn, 'section': section, 'spelling': rng.choice(SPELLINGS),
-            'index': rng.choice(['', 'index.html', 'index.html', 'g.txt']),
-            'match': rng.choice(['', '', '', r'\.txt$']), 'method': method, 'path_info': prefix + rel, 'tmpl': t}
+    c = {'k': 'static', 'mode': 'direct', 'rn': rn, 'section': section, 'spelling': rng.choice(SPELLINGS),
+         'index': rng.choice(['', 'index.html', 'index.html', 'g.txt', 'sub/index.html', './index.html', 'index.html/',
+                              'sub/', 'nope.html', 'a', 'b\\c.txt', 'sp ace.txt']),
+         'match': rng.choice(['', '', '', r'\.txt$', r'^/static', r'(?i)\.TXT$', r'\.\.', r'^[^%]*$']),
+         'method': method, 'path_info': prefix + rel, 'tmpl': t}
+    if rng.random() < 0.15:
+        c['debug'] = True
+    if rng.random() < 0.15:
+        c['content_types'] = rng.choice([{'txt': 'text/x-c11'}, {}, {'html': 'text/html', 'txt': 'x/y'}])
+    return c
 
 
 # ---- sessions -----------------------------------------------------------------------------------
@@ -197,16 +247,67 @@ def session_id(rng, store):
     return v, t
 
 
+CLASS_CPS = list(range(0, 256)) + [0x100, 0x2025, 0x2215, 0x2044, 0xFF0F, 0xFF0E, 0xFF3C, 0x29F8, 0xD7FF, 0xE000,
+                                    0xFFFD, 0xFFFF, 0x10000, 0x1F600, 0x10FFFF]
+CLASS_SHAPES = ['{c}', 'a{c}b', '..{c}..', '{c}..{c}', '..{c}', '{c}/../../{store}-evil/victim', '/..{c}/../{store}-evil/victim',
+                '/..{c}..{c}{store}-evil{c}victim', 'real{c}', '{c}real', '/../..{c}', 'a/..{c}/..{c}/canary.txt']
+
+
+def byte_class_id(rng, store, cp=None, shape=None):
+    """An id built around ONE character of a given class (every byte value, os.sep, NUL, newline, a few
+    non-latin-1 code points): only '/' separates, whatever else the id contains."""
+    cp = rng.choice(CLASS_CPS) if cp is None else cp
+    shape = rng.choice(CLASS_SHAPES) if shape is None else shape
+    return shape.replace('{c}', chr(cp)).replace('{store}', store)
+
+
 def sess_unit_case(rng):
     store = rng.choice(STORES)
-    v, t = session_id(rng, store)
-    return {'k': 'sess_unit', 'store': store, 'spelling': rng.choice(S_SPELLINGS), 'id': v,
-            'op': rng.choice(['exists', 'load', 'save', 'delete', 'lock']), 'tmpl': t}
+    if rng.random() < 0.18:
+        v, t = byte_class_id(rng, store), 'byteclass'
+    else:
+        v, t = session_id(rng, store)
+    c = {'k': 'sess_unit', 'store': store, 'spelling': rng.choice(S_SPELLINGS), 'id': v,
+         'op': rng.choice(['exists', 'load', 'save', 'delete', 'lock', 'exists', 'load', 'save', 'delete', 'lock',
+                           'release', 'len']), 'tmpl': t}
+    if rng.random() < 0.1:
+        c['debug'] = True
+    return c
+
+
+def sess_config_cases():
+    """Configuration corners of FileSession (a busy lock, a lock_timeout of the wrong type, debug logging)."""
+    return [{'k': 'sess_unit', 'store': 'sess', 'spelling': 'abs', 'id': 'real', 'op': 'lock-busy', 'tmpl': 'config'},
+            {'k': 'sess_unit', 'store': 'sess2', 'spelling': 'slash', 'id': 'busy-new', 'op': 'lock-busy', 'tmpl': 'config',
+             'debug': True},
+            {'k': 'sess_unit', 'store': 'sess', 'spelling': 'abs', 'id': 'x', 'op': 'bad-timeout', 'tmpl': 'config'},
+            {'k': 'sess_unit', 'store': 'sess', 'spelling': 'abs', 'id': 'real', 'op': 'lock', 'tmpl': 'config', 'debug': True},
+            {'k': 'sess_unit', 'store': 'sess', 'spelling': 'abs', 'id': '/inner/x', 'op': 'load', 'tmpl': 'config',
+             'debug': True},
+            {'k': 'cleanup', 'store': 'sess2', 'spelling': 'abs', 'files': [['session-abc', 'e'], ['session-u', 'u']],
+             'debug': True}]
+
+
+def byte_class_sweep(every):
+    """Systematic: every code point of CLASS_CPS (every `every`-th in the quick tier, offset by the caller) as a
+    whole id and inside a dot-dot shape, through each of the five methods in turn."""
+    out = []
+    ops = ['exists', 'load', 'save', 'delete', 'lock']
+    for n, cp in enumerate(CLASS_CPS):
+        if n % every[0] != every[1]:
+            continue
+        for j, shape in enumerate(['{c}', '..{c}..', '/..{c}/../{store}-evil/victim']):
+            out.append({'k': 'sess_unit', 'store': 'sess', 'spelling': 'abs',
+                        'id': shape.replace('{c}', chr(cp)).replace('{store}', 'sess'),
+                        'op': ops[(n + j) % 5], 'tmpl': 'byteclass'})
+    return out
 
 
 def sess_wsgi_case(rng):
     store = rng.choice(STORES)
     v, t = session_id(rng, store)
+    if rng.random() < 0.12:
+        v, t = byte_class_id(rng, store, cp=rng.randrange(0, 256)), 'byteclass'
     if rng.random() < 0.04:
         v = None
     elif any(ord(c) > 255 for c in v):
@@ -219,14 +320,132 @@ def sess_wsgi_case(rng):
 
 def cleanup_case(rng):
     names = ['session-abc', 'session-abc.lock', 'other.txt', 'session-x y', 'sessionX', '.lock', 'session-.lock',
-             'session-old', 'session-zz', 'session-d', 'Session-up', 'session-\\..\\x']
+             'session-old', 'session-zz', 'session-d', 'Session-up', 'session-\\..\\x', 'session-', 'session-\n',
+             'session-\u00e9', 'session-a.lock.lock', 'session-.lock.x', 'SESSION-abc', 'session-x.lockx', 'x.lock',
+             'session-..', 'session-.', 'session-%2e%2e', 'session-\u2025', 'session', 'session-abc.LOCK',
+             'session-' + 'L' * 200]
     files = []
     for n in rng.sample(names, rng.randint(0, 6)):
         st = rng.choice(['u', 'z', 'f', 'e', 'e'])
         if n == 'session-d':
             st = 'dir'
         files.append([n, st])
-    return {'k': 'cleanup', 'store': 'sess2', 'spelling': rng.choice(S_SPELLINGS), 'files': files}
+    c = {'k': 'cleanup', 'store': 'sess2', 'spelling': rng.choice(S_SPELLINGS), 'files': files}
+    if rng.random() < 0.15:
+        c['debug'] = True
+    if rng.random() < 0.2:
+        c['fl'] = 'links'       # the store also holds symbolic links named session-*
+    return c
+
+
+# ---- sandbox flavour with symbolic links ----------------------------------------------------------
+L_ATOMS = ['..', '..', '..', 'other', 'lnk', 'lnk_rel', 'lnk_file', 'f.txt', 'only-in-x.txt', 'only-in-xy.txt', 'x', 'y', 'z',
+           'l_out_dir', 'l_in', 'sub', 'l_up', 'l_out_file', 'l_abs', 'l_loop', 'l_dangling', 'secret.txt', 'canary.txt',
+           '.', '', 'deep.txt', 'g.txt']
+
+
+def links_rel(rng, rn):
+    r = rng.random()
+    if r < 0.3:       # links the operator put inside the root
+        return rng.choice(['l_out_dir/secret.txt', 'l_out_dir', 'l_out_dir/', 'l_out_file', 'l_abs', 'l_in/g.txt', 'l_in',
+                           'l_in/', 'l_loop', 'l_loop/x', 'l_dangling', 'sub/l_up/f.txt', 'sub/l_up/sub/l_up/index.html',
+                           'l_in/../f.txt', 'l_out_dir/../canary.txt', 'l_out_dir/../' + rn + '/f.txt', 'l_in/l_up/l_abs',
+                           'l_out_dir/lnk/deep.txt', 'l_out_dir/lnk/../../' + rn + '/only-in-x.txt']), 'l-inside'
+    if r < 0.7:       # out of the root and back through a directory link that sits outside it
+        lnk = rng.choice(['lnk', 'lnk', 'lnk_rel'])
+        up = rng.choice(['..', '..', '..', '%2e%2e', '.%2e'])
+        tail = rng.choice([rn + '/only-in-x.txt', rn + '/f.txt', rn + '/', rn, rn + '/nope.txt', rn + '-evil/secret.txt',
+                           'canary.txt'])
+        shape = rng.choice(['{u}/other/{l}/{u}/{u}/{t}', '{u}/other/{l}/{u}/{u}/{t}', '{u}/other/{l}/{u}/{t}',
+                            '{u}/other/{l}/deep.txt/{u}/{u}/{u}/{t}', 'sub/{u}/{u}/other/{l}/{u}/{u}/{t}',
+                            '{u}/other/{l}/{u}/{u}/{u}/{t}', '{u}/other/{l}/./{u}/{u}/{t}', '{u}/other/lnk_file/{u}/{t}',
+                            '{u}/other/{l}/{u}/' + rn + '/{u}/{u}/{t}'])
+        return shape.replace('{u}', up).replace('{l}', lnk).replace('{t}', tail), 'l-outback'
+    return '/'.join(rng.choice(L_ATOMS + [rn]) for _ in range(rng.randint(1, 8))), 'l-soup'
+
+
+def links_static_case(rng):
+    rn = rng.choice(ROOTS[:2])
+    rel, t = links_rel(rng, rn)
+    if rng.random() < 0.6:
+        v = rng.choice(['std', 'noindex', 'slashdir', 'unnorm'])
+        return {'k': 'static', 'fl': 'links', 'mode': 'wsgi', 'rn': rn, 'variant': v, 'method': 'GET',
+                'path': MOUNT[v] + '/' + rel, 'tmpl': t}
+    return {'k': 'static', 'fl': 'links', 'mode': 'direct', 'rn': rn, 'section': '/static',
+            'spelling': rng.choice(['abs', 'slash', 'rel+root', 'dotdot']), 'index': rng.choice(['', 'index.html']),
+            'match': '', 'method': rng.choice(['GET', 'GET', 'HEAD']), 'path_info': '/static/' + rel, 'tmpl': t}
+
+
+def links_sess_case(rng):
+    store = rng.choice(STORES)
+    first = {'sess': rng.choice(['', 'a']), 'sess2': 'b'}[store]      # session-<first> is a directory of the store
+    r = rng.random()
+    if r < 0.35:
+        v, t = rng.choice(['l_out', 'l_in', 'l_dir', 'l_dir/secret.txt', 'l_dir/../canary.txt', 'l_out/..', 'l_in.lock',
+                           first + '/../session-l_out', first + '/../session-l_dir/lnk/deep.txt']), 'l-inside'
+    elif r < 0.8:
+        lnk = rng.choice(['lnk', 'lnk', 'lnk_rel'])
+        tail = rng.choice([store + '/session-v', store + '/session-real', store + '/session-new', store,
+                           store + '-evil/victim', 'canary.txt'])
+        shape = rng.choice(['{f}/../../other/{l}/../../{t}', '{f}/../../other/{l}/../../{t}', '{f}/../../other/{l}/../{t}',
+                            '{f}/../../other/{l}/../../../{t}', '{f}/../../other/{l}/./../../{t}'])
+        v, t = shape.replace('{f}', first).replace('{l}', lnk).replace('{t}', tail), 'l-outback'
+    else:
+        v = first + '/' + '/'.join(rng.choice(L_ATOMS + [store, 'session-v', 'session-real'])
+                                   for _ in range(rng.randint(1, 7)))
+        t = 'l-soup'
+    if rng.random() < 0.5:
+        return {'k': 'sess_unit', 'fl': 'links', 'store': store, 'spelling': rng.choice(['abs', 'slash', 'dotdot']), 'id': v,
+                'op': rng.choice(['exists', 'load', 'save', 'delete', 'lock']), 'tmpl': t}
+    return {'k': 'sess_wsgi', 'fl': 'links', 'store': store, 'spelling': rng.choice(['abs', 'slash']), 'id': v,
+            'action': rng.choice(['none', 'read', 'write', 'delete', 'regenerate']), 'tmpl': t,
+            'cstyle': rng.choice(['auto', 'octal'])}
+
+
+L_TREE = {
+    '': ['root', 'r', 'other', 'x', 'sess', 'sess2', 'canary.txt', 'sub0'],
+    'root': ['f.txt', 'sub', 'a', 'l_out_dir', 'l_out_file', 'l_abs', 'l_in', 'l_loop', 'l_dangling', 'index.html'],
+    'root/sub': ['g.txt', 'deep', 'l_up', 'index.html'], 'root/sub/deep': ['h.txt'],
+    'other': ['secret.txt', 'lnk', 'lnk_rel', 'lnk_file'], 'x': ['y', 'root', 'r', 'sess'], 'x/y': ['z', 'root'],
+    'x/y/z': ['deep.txt'], 'x/root': ['f.txt', 'only-in-x.txt'], 'sess': ['session-real', 'session-l_out', 'session-l_in',
+                                                                         'session-l_dir', 'session-', 'session-a'],
+}
+L_LINKS = {'root/l_out_dir': 'other', 'root/l_in': 'root/sub', 'root/sub/l_up': 'root', 'other/lnk': 'x/y/z',
+           'other/lnk_rel': 'x/y/z', 'sess/session-l_dir': 'other'}
+
+
+def lres_case(rng):
+    """A path through the sandbox with links, for `lresolve` against os.stat / os.lstat: mostly a walk along
+    existing names (through links as well), with '..' after a link, detours and missing names."""
+    cur, parts = '', []
+    for _ in range(rng.randint(1, 9)):
+        r = rng.random()
+        if r < 0.62 and cur in L_TREE:
+            c = rng.choice(L_TREE[cur])
+            parts.append(c)
+            cur = (cur + '/' + c) if cur else c
+            cur = L_LINKS.get(cur, cur)
+        elif r < 0.8:
+            if cur in ('', '?'):
+                continue            # never above the sandbox top: the model tree ends there
+            parts.append('..')
+            cur = cur.rpartition('/')[0]
+        elif r < 0.9:
+            parts.append(rng.choice(['.', '', '.']))
+        else:
+            parts.append(rng.choice(['nope', 'f.txt', 'l_loop', 'l_dangling', 'lnk']))
+            cur = '?'
+    return {'k': 'lres', 'fl': 'links', 'path': '{TOP}/' + '/'.join(parts) + rng.choice(['', '', '', '/', '/.']),
+            'follow': rng.choice([1, 1, 0])}
+
+
+# the witnesses of F32 / F32b (findings/C11.json), replayed on every run
+F32_WITNESSES = [
+    {'k': 'static', 'fl': 'links', 'mode': 'wsgi', 'rn': 'root', 'variant': 'std', 'method': 'GET',
+     'path': '/static/../other/lnk/../../root/only-in-x.txt', 'tmpl': 'F32'},
+    {'k': 'sess_wsgi', 'fl': 'links', 'store': 'sess', 'spelling': 'abs', 'id': '/../../other/lnk/../../sess/session-v',
+     'action': 'write', 'tmpl': 'F32b', 'cstyle': 'auto'},
+]
 
 
 # ---- path algebra / resolution ------------------------------------------------------------------
